@@ -220,6 +220,23 @@ func (e *Environment) RemoveScope() error {
 	return fmt.Errorf("attempt to RemoveScope when no scopes are present")
 }
 
+// Depth returns the number of scopes which are currently open.
+func (e *Environment) Depth() int {
+	return len(e.local)
+}
+
+// Unwind closes the scopes which have been opened since Depth returned
+// the given value.
+//
+// A script which returns from the middle of a loop, or from the middle of
+// a function, and one which fails, leave the scopes they had opened behind
+// them; the variables in those scopes must not be seen by whatever runs next.
+func (e *Environment) Unwind(depth int) {
+	if depth >= 0 && depth < len(e.local) {
+		e.local = e.local[:depth]
+	}
+}
+
 // SetLocal stores the value of a variable, by name, but only for the local scope.
 func (e *Environment) SetLocal(name string, val object.Object) object.Object {
 
